@@ -17,7 +17,7 @@ from simkit.runner import Outcome
 
 PROPERTY = 'C12'
 LEVEL = 'exploration'
-PLAN = {'quick': [('metric', 1500), ('adhist', 2500), ('adsim', 700)],
+PLAN = {'quick': [('metric', 3000), ('adhist', 6000), ('adsim', 1500)],
         'thorough': [('metric', 80000), ('adhist', 200000), ('adsim', 50000)]}
 TIMEOUT = {'quick': 900, 'thorough': 6 * 3600}
 RULE = ('metric: generated models with 1-3 scalar/vector summaries and an elfi.Distance node '
